@@ -74,6 +74,7 @@ func (s *Session) builtin(fr *Frame, b *ssa.Builtin, cc *ssa.CallCommon, args []
 		had := Select(Select(dom, m), k)
 		st.Heap[cardN] = s.define("H", Store(card, m, Ite(had, Sub(Select(card, m), I(1)), Select(card, m))))
 		st.Heap[domN] = s.define("H", Store(dom, m, Store(Select(dom, m), k, TFalse)))
+		s.bumpMapVersion(st, mt, m)
 		return Val{}
 	case "print", "println":
 		return Val{}
